@@ -6,6 +6,7 @@ package __PKG__
 import (
 	"bytes"
 	"context"
+	"fmt"
 	"io"
 	"os"
 	"sync"
@@ -164,4 +165,9 @@ func verifModelSliceStable(x any, less func(i, j int) bool) {
 			verifSliceSwapAny(x, j, j-1)
 		}
 	}
+}
+
+// fmt.Fprintf: format, then one Write of the result
+func verifModelFprintf(w io.Writer, format string, a ...any) (int, error) {
+	return w.Write([]byte(fmt.Sprintf(format, a...)))
 }
